@@ -498,3 +498,82 @@ func contains(xs []string, x string) bool {
 }
 
 var _ = sdk.AccAddress{}
+
+
+// SendNFT submits MsgNftTransfer with explicit arguments.
+func (s *Sim) SendNFT(c *world.Chain, owner *world.Account, class, id, receiver, dst, relay string) *Violation {
+	msg := nfttransfer.NewMsgNftTransfer(class, id, owner.Addr.String(), receiver, dst, relay, "")
+	st := &Step{Kind: "nftsend", Src: c.Name, Dst: dst, Relay: relay, Sender: owner.Addr.String(), Class: class, ID: id,
+		Receiver: receiver, Port: PortNFT, Op: Op{K: "journey-send"}}
+	s.deliver(st, c, owner, msg)
+	if st.OK {
+		if ps := world.PacketsFromEvents(st.Res.Events); len(ps) == 1 {
+			st.Packet = &ps[0]
+		}
+	}
+	return s.record(st)
+}
+
+// SendMT submits MsgMtTransfer with explicit arguments.
+func (s *Sim) SendMT(c *world.Chain, owner *world.Account, class, id string, amt uint64, receiver, dst, relay string) *Violation {
+	msg := mttransfer.NewMsgMtTransfer(class, id, owner.Addr.String(), receiver, dst, relay, "", amt)
+	st := &Step{Kind: "mtsend", Src: c.Name, Dst: dst, Relay: relay, Sender: owner.Addr.String(), Class: class, ID: id,
+		Amount: amt, Receiver: receiver, Port: PortMT, Op: Op{K: "journey-send"}}
+	s.deliver(st, c, owner, msg)
+	if st.OK {
+		if ps := world.PacketsFromEvents(st.Res.Events); len(ps) == 1 {
+			st.Packet = &ps[0]
+		}
+	}
+	return s.record(st)
+}
+
+
+// opNFTRaid is an adversarial heuristic: send a voucher held on chain A to a chain whose escrow
+// currently holds a *native* NFT with the same base class name and token id, preferring the
+// voucher's previous hop as relay chain (B selects among the candidates).
+func (s *Sim) opNFTRaid(op Op) *Violation {
+	c := s.chain(op.A)
+	type cand struct {
+		tk         NFTInst
+		dst, relay string
+	}
+	var cands []cand
+	for _, tk := range s.userNFTs(c) {
+		path, ok := NFTClassPath(c, tk.Class)
+		if !ok {
+			continue
+		}
+		parts := strings.Split(path, "/")
+		if len(parts) < 4 || parts[0] != "nft" {
+			continue
+		}
+		base := parts[len(parts)-1]
+		prev := parts[len(parts)-3]
+		for _, dn := range s.W.Order {
+			if dn == c.Name {
+				continue
+			}
+			for _, e := range SnapTokens(s.W.Chains[dn]).NFTs {
+				if e.Owner == NFTEscrow && e.Class == base && e.ID == tk.ID {
+					relay := ""
+					if prev != c.Name && prev != dn {
+						relay = prev
+					}
+					cands = append(cands, cand{tk, dn, relay})
+				}
+			}
+		}
+	}
+	if len(cands) == 0 {
+		return nil
+	}
+	cd := cands[mod(op.B, len(cands))]
+	owner := s.accByAddr(c, cd.tk.Owner)
+	if owner == nil {
+		return nil
+	}
+	s.Label("nft-raid-attempt")
+	rcv := s.W.Chains[cd.dst].Accounts[mod(op.C, world.NumUsers)].Addr.String()
+	return s.SendNFT(c, owner, cd.tk.Class, cd.tk.ID, rcv, cd.dst, cd.relay)
+}
